@@ -142,7 +142,7 @@ def expected_backups(exp, names, cfg, nseries, first=0):
                 continue
             if f in pm.t:
                 lines, md = pm.t[f]
-                out[key] = (b''.join(l + b'\n' for l in lines), 0o644 if md is None else md)
+                out[key] = (b''.join(tq.eol(l) for l in lines), 0o644 if md is None else md)
             else:
                 out[key] = (b'', None)   # a zero-length placeholder for "did not exist": its mode carries no meaning
     return out
